@@ -208,6 +208,7 @@ func (obj *Package) Unuse(pkg *Package) {
 			}
 		}
 		// Rebuild to make sure use tree branches are removed as well.
+		vars, funcs, classes := obj.vars, obj.funcs, obj.classes
 		obj.vars = map[string]*VarVal{}
 		obj.funcs = map[string]*FuncInfo{}
 		obj.classes = map[string]Class{}
@@ -219,6 +220,23 @@ func (obj *Package) Unuse(pkg *Package) {
 				obj.funcs[name] = fi
 			}
 			for name, c := range p.classes {
+				obj.classes[name] = c
+			}
+		}
+		// What the package defines itself or imports does not depend on
+		// the packages it uses.
+		for name, vv := range vars {
+			if vv.Pkg == obj || obj.Imports[name] != nil {
+				obj.vars[name] = vv
+			}
+		}
+		for name, fi := range funcs {
+			if fi.Pkg == obj || obj.Imports[name] != nil {
+				obj.funcs[name] = fi
+			}
+		}
+		for name, c := range classes {
+			if c.Pkg() == obj {
 				obj.classes[name] = c
 			}
 		}
